@@ -76,6 +76,25 @@ theorem elabIndex_constArr {a i n : IExpr} {τa τi τ : ETy} (ha : HasType Γ a
           simp only [typeOf, typeOf_of_hasType a τa ha, hl, ho] at hty
           simp at hty; subst hty; exact ⟨hconst, hnum⟩
 
+/-- an element of a read-only resource is const -/
+theorem elabIndex_readOnlyRes {a i n : IExpr} {τa τi τ : ETy} (ha : HasType Γ a τa) (hc : ReadOnlyRes Γ τa)
+    (h : elabIndex Γ a τa i τi = .ok (n, τ)) : ConstNum τ := by
+  obtain ⟨id, kind, elem, hl, ho, hro, hnum⟩ := hc
+  unfold elabIndex at h
+  split at h
+  · simp at h
+  · split at h
+    · simp at h
+    · simp at h
+    · split at h
+      · simp at h
+      · split at h
+        · simp at h
+        · rename_i ety hty
+          simp at h; obtain ⟨_, rfl⟩ := h
+          simp only [typeOf, typeOf_of_hasType a τa ha, hl, ho, resourceElem, hro, if_true] at hty
+          simp at hty; subst hty; exact ⟨rfl, hnum⟩
+
 /-! ## chains -/
 
 theorem elabE_member_inv {dbg : Bool} {e : SExpr} {name : String} {r : IExpr × ETy}
@@ -159,6 +178,19 @@ theorem chain_constArr {dbg : Bool} {ps : List Proj} {e i : SExpr} {e0 : IExpr} 
     rw [h0] at ha; simp at ha; obtain ⟨rfl, rfl⟩ := ha
     simp at heq; obtain ⟨rfl, rfl⟩ := heq
     exact elabIndex_constArr (elab_sound_any dbg e _ _ h0) hc hx
+  exact chain_constNum ps _ e1 τ1 r h1 hc1 h
+
+/-- ... and through `[i]` followed by any chain on a read-only resource -/
+theorem chain_readOnlyRes {dbg : Bool} {ps : List Proj} {e i : SExpr} {e0 : IExpr} {τ0 : ETy} {r : IExpr × ETy}
+    (h0 : elabE dbg Γ e = .ok (e0, τ0)) (hc : ReadOnlyRes Γ τ0)
+    (h : elabE dbg Γ (applyChain e (.index i :: ps)) = .ok r) : ConstNum r.2 := by
+  simp only [applyChain] at h
+  obtain ⟨⟨e1, τ1⟩, h1⟩ := chain_base_ok ps _ r h
+  have hc1 : ConstNum τ1 := by
+    obtain ⟨a1, τa, i0, τi, n, τ', ha, _, hx, heq⟩ := elabE_index_inv h1
+    rw [h0] at ha; simp at ha; obtain ⟨rfl, rfl⟩ := ha
+    simp at heq; obtain ⟨rfl, rfl⟩ := heq
+    exact elabIndex_readOnlyRes (elab_sound_any dbg e _ _ h0) hc hx
   exact chain_constNum ps _ e1 τ1 r h1 hc1 h
 
 /-! ## value category through member chains -/
